@@ -2229,6 +2229,16 @@ impl CharacterDataMut for XmlText {
             Ok(())
         }
     }
+
+    fn replace_data(&self, offset: usize, count: usize, arg: &str) -> error::Result<()> {
+        if self.length() < offset {
+            Err(error::DomException::IndexSizeErr)?
+        } else {
+            // one step: a refused replacement leaves the data as it was.
+            self.data.borrow_mut().replace(offset, count, arg)?;
+            Ok(())
+        }
+    }
 }
 
 impl Node for XmlText {
@@ -2384,6 +2394,16 @@ impl CharacterDataMut for XmlComment {
             Err(error::DomException::IndexSizeErr)?
         } else {
             self.data.borrow_mut().delete(offset, count);
+            Ok(())
+        }
+    }
+
+    fn replace_data(&self, offset: usize, count: usize, arg: &str) -> error::Result<()> {
+        if self.length() < offset {
+            Err(error::DomException::IndexSizeErr)?
+        } else {
+            // one step: a refused replacement leaves the data as it was.
+            self.data.borrow_mut().replace(offset, count, arg)?;
             Ok(())
         }
     }
@@ -2571,6 +2591,16 @@ impl CharacterDataMut for XmlCDataSection {
             Err(error::DomException::IndexSizeErr)?
         } else {
             self.data.borrow_mut().delete(offset, count);
+            Ok(())
+        }
+    }
+
+    fn replace_data(&self, offset: usize, count: usize, arg: &str) -> error::Result<()> {
+        if self.length() < offset {
+            Err(error::DomException::IndexSizeErr)?
+        } else {
+            // one step: a refused replacement leaves the data as it was.
+            self.data.borrow_mut().replace(offset, count, arg)?;
             Ok(())
         }
     }
